@@ -292,9 +292,10 @@ fn compile_script(testcases: &[&TestCase], config: &TestCaseConfig, salt: &str) 
         // add footer that divides from next execution and captures exit code
         let footer = generate_divider(salt, index);
         expressions.push("".to_string());
-        expressions.push(format!(r#"echo "{}""#, &footer));
+        // (`builtin`: a test may define a function or an alias named `echo`)
+        expressions.push(format!(r#"builtin echo "{}""#, &footer));
         if config.output_stream != Some(OutputStreamControl::Combined) {
-            expressions.push(format!(r#"1>&2 echo "{}""#, &footer));
+            expressions.push(format!(r#"1>&2 builtin echo "{}""#, &footer));
         }
     }
 
